@@ -115,11 +115,12 @@ UNIT_TRUSTED["packet_nlri"] = [
     "MplsLabelStack::decode is NOT verified: assumed to return at least one label, as many as the peer sends (no upper bound — that is the point), consuming 3 bytes each; encoded_len = 3 * depth; RouteDistinguisher::decode, Ipv4Addr / Ipv6Addr::from(octets) total; u8::div_ceil as defined",
     "MUP decoders (packet/src/mup.rs: MupNlri::decode and the four route-type decoders, addr_bit_len, decode_ip, decode_prefix): slice range indexing `&data[a..b]` is rewritten (R18) to helpers whose `requires a <= b <= len` is Rust's bounds check; `x[..n].copy_from_slice(..)` and byteorder's slice reads likewise; integer constants in match patterns are replaced by their (compile-time checked) values",
     "Flowspec decoders (packet/src/flowspec.rs: Op::decode, decode_ops, the prefix decoders, read_nlri_len, both component decoders, the four NLRI decoders): the stream model also carries `total()`; the inner io::Cursor over the NLRI bytes is such a stream (Cursor::new / position as R11 helpers: position + left == total); `vec![0u8; n]`, the RD byte loop and the formatted error are outlined",
-    "NOT covered: the other per-family NLRI decoders (labeled unicast truncates the same bit count with `as u8` without panicking — a mis-parse, by inspection; EVPN, BGP-LS; SR-policy and RTC are straight-line reads), decode_nlri_list's loop",
+    "Labeled-unicast decoders (packet/src/labeled.rs): verified panic-free with masks within the address width; they truncate the label-stack bit count with `as u8` (no panic: a stack of 32 labels is mis-parsed rather than rejected — noted, outside C03's wording)",
+    "NOT covered: the other per-family NLRI decoders (EVPN, BGP-LS; SR-policy and RTC are straight-line reads), decode_nlri_list's loop",
 ]
 
 # minimum number of functions that must produce obligations / of must-fail twins that must run
-FLOORS = {"daemon_fsm": 30, "daemon_gr": 4, "daemon_peer_tx": 9, "table_cmp": 20, "packet_validate": 1, "packet_parse": 1, "table_rpki": 5, "table_policy": 6, "daemon_export": 11, "packet_bmp": 6, "packet_mrt": 8, "packet_aspath": 10, "packet_encode": 4, "packet_nlri": 20}
+FLOORS = {"daemon_fsm": 30, "daemon_gr": 4, "daemon_peer_tx": 9, "table_cmp": 20, "packet_validate": 1, "packet_parse": 1, "table_rpki": 5, "table_policy": 6, "daemon_export": 11, "packet_bmp": 6, "packet_mrt": 8, "packet_aspath": 11, "packet_encode": 4, "packet_nlri": 22}
 TWIN_FLOORS = {"daemon_fsm": 8, "daemon_gr": 3, "daemon_peer_tx": 2, "table_cmp": 4, "packet_validate": 1, "packet_parse": 1, "table_rpki": 1, "table_policy": 1, "daemon_export": 1, "packet_bmp": 1, "packet_mrt": 1, "packet_aspath": 1, "packet_encode": 1, "packet_nlri": 1}
 
 PLAN = {
@@ -139,7 +140,7 @@ PLAN = {
     "C14": {"verus": ["table_policy"], "level": "proof"},
     "C16": {"verus": ["daemon_fsm"], "kani": ["c16_ipnet_contains_v4", "c16_ipnet_contains_v6"], "level": "proof"},
     "C04": {"verus": ["packet_encode", "packet_aspath"], "level": "proof",
-            "fn_filter": {"packet_aspath": ["encode", "encode_wire", "value", "binary"]}},
+            "fn_filter": {"packet_aspath": ["encode", "encode_wire", "value", "binary", "as_path_has_wide_as", "lemma_seg_any_wide_mono"]}},
     "C02": {"verus": ["table_cmp", "packet_aspath"], "level": "proof",
             "fn_filter": {"packet_aspath": ["as_path_length"]}},
     "C19": {"verus": ["packet_bmp", "packet_mrt"], "level": "proof"},
